@@ -10,7 +10,8 @@ def _pay(rng, k):
 
 class Scenario:
     def __init__(self, rng, role='server', lenreq=False, hostile=0.0, with_close=True, steps=12, frag=0.0,
-                 close_mode=None, garbage=0.0, race=0.0, on_close_raises=False):
+                 close_mode=None, garbage=0.0, race=0.0, on_close_raises=False,
+                 app_raises_at_close=False):
         self.rng = rng
         self.race = race                # probability that a local action shares its loop iteration with the next peer event
         self.raced = 0
@@ -21,6 +22,7 @@ class Scenario:
         self.fragmented = 0
         self.rec = Recorder(role, lenreq)
         self.rec.on_close_raises = on_close_raises
+        self.app_raises_at_close = app_raises_at_close
         self.first = 2 if role == 'server' else 1
         self.peer_next = 1 if role == 'server' else 2       # next stream id the peer opens
         self.hostile = hostile
@@ -543,6 +545,10 @@ class Scenario:
                 else:
                     self.peer_open()
             if self.with_close and not self.closed:
+                if self.app_raises_at_close:
+                    # from now on the application's publishers fail in cancel() and its subscribers in on_error()
+                    self.rec.pub_cancel_raises = True
+                    self.rec.sub_error_raises = True
                 mode = self.close_mode or rng.choice(['eof', 'error'])
                 self.pre_close_sent = len(self.rec.t.sent)
                 if mode == 'cut':
